@@ -176,6 +176,34 @@ def strip_casts(n):
     return n
 
 
+def unnegate(e):
+    """(base expression, positive?) of a condition: peels parentheses, casts to bool and `!`"""
+    pos = True
+    while e is not None:
+        e = strip_casts(e)
+        if e.kind == 'ParenExpr' and e.kids:
+            e = e.kids[0]
+        elif e.kind == 'UnaryOperator' and e.op == '!' and e.kids:
+            pos = not pos
+            e = e.kids[0]
+        elif e.kind in ('ImplicitCastExpr', 'ExprWithCleanups', 'MaterializeTemporaryExpr') and e.kids:
+            e = e.kids[0]
+        else:
+            break
+    return e, pos
+
+
+def if_outcome(ifstmt, node):
+    """the outcome of the un-negated condition of `ifstmt` under which `node` runs: True, False,
+    or None when the node is in neither arm.  `if (!(c)) B else A` and `if (c) A else B` agree."""
+    base, pos = unnegate(ifstmt.kids[0])
+    arms = [k for k in ifstmt.kids[1:] if k is not None]
+    for i, arm in enumerate(arms[:2]):
+        if any(x is node for x in arm.walk()):
+            return base, (pos if i == 0 else not pos)
+    return base, None
+
+
 def local_inits(func):
     """name -> init expression for local variables declared with an initialiser."""
     out = {}
